@@ -71,7 +71,8 @@ CLAIMS["C15"] = {
             "every kind never panic. E2: alist lookup by value / name on an abstract cell; Value::append / list build the "
             "documented chain (start at the head cell, one cell per element, given tail as the last cdr, tail itself for no "
             "elements) for any number of elements. "
-            "E2 c15_clone_protocol / c15_eq_protocol: the hand-written Clone and PartialEq of Cons as cell walks (one-step induction + base case): structural copy cell by cell with the tail cloned last, source untouched; comparison false at the first differing car, advancing on two pair cdrs, else the comparison of exactly the two cdrs.",
+            "E2 c15_clone_protocol / c15_eq_protocol: the hand-written Clone and PartialEq of Cons as cell walks (one-step induction + base case): structural copy cell by cell with the tail cloned last, source untouched; comparison false at the first differing car, advancing on two pair cdrs, else the comparison of exactly the two cdrs. "
+            "c15_into_iter: the consuming iterator yields every element once with the tail attached to the last (one step from any cursor state).",
     "note": "E1 chains longer than 4 cells, the consuming iterator and the cloning conversions are "
             "outside (CBMC runs out of memory on drop/clone glue of Value; measured). Trusted: Kani/CBMC, z3.",
 }
